@@ -36,6 +36,7 @@ func foldOpts() []gotype.FoldOption {
 // foldTo folds the value held in rv (addressable) into vis, passing it the way
 // a user would: as an interface{} holding the value.
 func foldTo(rv reflect.Value, vis structform.Visitor) Outcome {
+	otherInstances(rv.Type())
 	return guard(func() error {
 		// the registered folder is only passed when the type needs it: most
 		// users call Fold without options, and an iterator with options may take
@@ -50,6 +51,98 @@ func foldTo(rv reflect.Value, vis structform.Visitor) Outcome {
 		return it.Fold(rv.Interface())
 	})
 }
+
+// otherInstances lets ANOTHER iterator and ANOTHER unfolder — both configured
+// with custom folders/unfolders that give the named scalar pool types a
+// different meaning — compile the type first. Instances are independent:
+// whatever they compiled for their own configuration must never reach the
+// instance under test (the documented mapping and the assignment model know
+// nothing about them). Only done for types that use one of those named types.
+func otherInstances(t reflect.Type) {
+	if t.Kind() == reflect.Ptr {
+		t = t.Elem()
+	}
+	if !usesHostile(t) {
+		return
+	}
+	guard(func() error {
+		if it, err := gotype.NewIterator(discardVisitor{}, hostileFoldOpts); err == nil {
+			_ = it.Fold(reflect.New(t).Elem().Interface())
+		}
+		if u, err := gotype.NewUnfolder(nil, hostileUnfoldOpts); err == nil {
+			_ = u.SetTarget(reflect.New(t).Interface())
+		}
+		return nil
+	})
+}
+
+var (
+	hostileFoldOpts = gotype.Folders(
+		func(v *gomodel.NInt, vis structform.ExtVisitor) error { return vis.OnString("hostile") },
+		func(v *gomodel.NStr, vis structform.ExtVisitor) error { return vis.OnInt(-1) },
+		func(v *gomodel.NF64, vis structform.ExtVisitor) error { return vis.OnNil() },
+		func(v *gomodel.NBool, vis structform.ExtVisitor) error { return vis.OnString("hostile") },
+		func(v *gomodel.NUint16, vis structform.ExtVisitor) error { return vis.OnString("hostile") },
+	)
+	hostileUnfoldOpts = gotype.Unfolders(
+		func(to *gomodel.NInt, v int64) error { *to = gomodel.NInt(v ^ 0x5555); return nil },
+		func(to *gomodel.NStr, v string) error { *to = gomodel.NStr("hostile:" + v); return nil },
+		func(to *gomodel.NF64, v float64) error { *to = gomodel.NF64(-v - 1); return nil },
+		func(to *gomodel.NBool, v bool) error { *to = gomodel.NBool(!v); return nil },
+		func(to *gomodel.NUint16, v uint16) error { *to = gomodel.NUint16(v + 1); return nil },
+	)
+	hostileTypes = []reflect.Type{reflect.TypeOf(gomodel.NInt(0)), reflect.TypeOf(gomodel.NStr("")), reflect.TypeOf(gomodel.NF64(0)), reflect.TypeOf(gomodel.NBool(false)), reflect.TypeOf(gomodel.NUint16(0))}
+)
+
+func usesHostile(t reflect.Type) bool { return usesTypes(t, 0, map[reflect.Type]bool{}) }
+
+func usesTypes(t reflect.Type, depth int, seen map[reflect.Type]bool) bool {
+	if depth > 12 || seen[t] {
+		return false
+	}
+	seen[t] = true
+	for _, h := range hostileTypes {
+		if t == h {
+			return true
+		}
+	}
+	switch t.Kind() {
+	case reflect.Ptr, reflect.Slice, reflect.Array, reflect.Map:
+		return usesTypes(t.Elem(), depth+1, seen)
+	case reflect.Struct:
+		for i := 0; i < t.NumField(); i++ {
+			if usesTypes(t.Field(i).Type, depth+1, seen) {
+				return true
+			}
+		}
+	}
+	return false
+}
+
+// discardVisitor accepts every event.
+type discardVisitor struct{}
+
+func (discardVisitor) OnObjectStart(int, structform.BaseType) error { return nil }
+func (discardVisitor) OnObjectFinished() error                      { return nil }
+func (discardVisitor) OnKey(string) error                           { return nil }
+func (discardVisitor) OnArrayStart(int, structform.BaseType) error  { return nil }
+func (discardVisitor) OnArrayFinished() error                       { return nil }
+func (discardVisitor) OnNil() error                                 { return nil }
+func (discardVisitor) OnBool(bool) error                            { return nil }
+func (discardVisitor) OnString(string) error                        { return nil }
+func (discardVisitor) OnInt8(int8) error                            { return nil }
+func (discardVisitor) OnInt16(int16) error                          { return nil }
+func (discardVisitor) OnInt32(int32) error                          { return nil }
+func (discardVisitor) OnInt64(int64) error                          { return nil }
+func (discardVisitor) OnInt(int) error                              { return nil }
+func (discardVisitor) OnByte(byte) error                            { return nil }
+func (discardVisitor) OnUint8(uint8) error                          { return nil }
+func (discardVisitor) OnUint16(uint16) error                        { return nil }
+func (discardVisitor) OnUint32(uint32) error                        { return nil }
+func (discardVisitor) OnUint64(uint64) error                        { return nil }
+func (discardVisitor) OnUint(uint) error                            { return nil }
+func (discardVisitor) OnFloat32(float32) error                      { return nil }
+func (discardVisitor) OnFloat64(float64) error                      { return nil }
 
 var regTType = reflect.TypeOf(gomodel.RegT{})
 
@@ -200,9 +293,11 @@ func newUnfolder(target any, types ...reflect.Type) (*gotype.Unfolder, error) {
 	need := false
 	if target != nil {
 		need = gomodel.UsesUserUnfolder(reflect.TypeOf(target))
+		otherInstances(reflect.TypeOf(target))
 	}
 	for _, t := range types {
 		need = need || gomodel.UsesUserUnfolder(t)
+		otherInstances(t)
 	}
 	if need {
 		return gotype.NewUnfolder(target, gomodel.UnfoldOptions())
